@@ -360,6 +360,89 @@ pub struct SeqCfg {
     pub len_cap: u32,
 }
 
+/// chunk sizes for the large-message variants: several KiB, so that single chunks exceed the
+/// buffers / thresholds (4096 and friends) an implementation may special-case
+pub fn chunk_size_large() -> BoxedStrategy<u32> {
+    prop_oneof![
+        4 => pick(&[4095u32, 4096, 4097, 5000, 8191, 8192, 8193, 16_384, 65_535, 65_536]),
+        2 => 4000u32..20_000,
+        1 => chunk_size(),
+    ]
+    .boxed()
+}
+
+/// lengths for the large-message variants
+pub fn len_spec_large() -> BoxedStrategy<LenSpec> {
+    prop_oneof![
+        2 => (1u32..300).prop_map(LenSpec::Abs),
+        3 => (1u8..4, -1i8..2).prop_map(|(m, o)| LenSpec::Rel(m, o)),
+        3 => (4000u32..40_000).prop_map(LenSpec::Abs),
+        1 => pick(&[4095u32, 4096, 4097, 8192, 12_288, 65_535, 65_536, 65_537]).prop_map(LenSpec::Abs),
+    ]
+    .boxed()
+}
+
+/// Sequences of a few LARGE messages with chunk sizes of several KiB.
+pub fn msg_seq_large(max_ops: usize) -> BoxedStrategy<Seq> {
+    let op = prop_oneof![
+        1 => chunk_size_large().prop_map(|c| (None, Some(c))),
+        4 => (pick(&[8u8, 9, 18, 20]), pick(&[1u32, 1, 0]), delta_u32(), len_spec_large(), any::<u32>(), 0u8..100, 0u8..100)
+            .prop_map(|(type_id, msid, dts, len, fill, f, d)| (Some((type_id, msid, dts, len, fill, f < 8, d < 15)), None)),
+    ];
+    (chunk_size_large(), proptest::collection::vec(op, 1..=max_ops))
+        .prop_map(|(first, ops)| {
+            let mut out = vec![Op::Chunk(first)];
+            let mut cs = first;
+            for (m, c) in ops {
+                if let Some(c) = c {
+                    out.push(Op::Chunk(c));
+                    cs = c;
+                }
+                if let Some((type_id, msid, dts, len, fill, force, drop)) = m {
+                    out.push(Op::Msg(MsgSpec { type_id, msid, dts, len: len.resolve(cs, 70_000), fill, force, drop }));
+                }
+            }
+            Seq { ops: out }
+        })
+        .boxed()
+}
+
+/// Foreign-sender sequences of a few LARGE messages.
+pub fn foreign_ops_large(max_ops: usize) -> BoxedStrategy<Vec<FOp>> {
+    let op = prop_oneof![
+        1 => chunk_size_large().prop_map(|c| (None, Some(c))),
+        4 => (pick(&[3u32, 4, 64, 320]), pick(&[8u8, 9, 20]), pick(&[1u32, 1, 0]), delta_u32(), len_spec_large(), any::<u32>(), 0u8..4)
+            .prop_map(|(csid, type_id, msid, dts, len, fill, want_fmt)| (Some((csid, type_id, msid, dts, len, fill, want_fmt)), None)),
+    ];
+    (chunk_size_large(), proptest::collection::vec(op, 1..=max_ops))
+        .prop_map(|(first, ops)| {
+            let mut out = vec![FOp::Chunk(first)];
+            let mut cs = first;
+            for (m, c) in ops {
+                if let Some(c) = c {
+                    out.push(FOp::Chunk(c));
+                    cs = c;
+                }
+                if let Some((csid, type_id, msid, dts, len, fill, want_fmt)) = m {
+                    out.push(FOp::Msg(FMsg { csid, want_fmt, three_byte: false, fmt0_cont: false, type_id, msid, dts, len: len.resolve(cs, 70_000), fill }));
+                }
+            }
+            out
+        })
+        .boxed()
+}
+
+/// partitions for large streams: a few cuts, fixed pieces of KiB size, rarely byte-by-byte
+pub fn partition_large() -> BoxedStrategy<Partition> {
+    prop_oneof![
+        1 => Just(Partition::Whole),
+        6 => proptest::collection::vec(any::<u16>(), 1..8).prop_map(Partition::Cuts),
+        3 => prop_oneof![pick(&[4095u16, 4096, 4097, 1000, 5000, 8192]), 500u16..9000].prop_map(Partition::Every),
+        1 => proptest::collection::vec(any::<u16>(), 1..8).prop_map(|c| Partition::Polled(Box::new(Partition::Cuts(c)))),
+    ]
+    .boxed()
+}
+
 impl SeqCfg {
     pub const DEFAULT: SeqCfg = SeqCfg { max_ops: 12, drop_pct: 15, force_pct: 10, chunk_change_pct: 10, len_cap: 6000 };
 }
@@ -415,7 +498,9 @@ use crate::drive::{FMsg, FOp};
 pub fn csid() -> BoxedStrategy<u32> {
     prop_oneof![
         6 => 2u32..9,
-        4 => pick(&[63u32, 64, 65, 318, 319, 320, 321, 65598, 65599, 575, 576]),
+        // boundaries of the 1/2/3-byte forms and pairs that alias under plausible decoding
+        // mistakes (264/520 and 319/575 differ by 256, 65/320 by a swapped byte)
+        4 => pick(&[63u32, 64, 65, 264, 318, 319, 320, 321, 520, 575, 576, 65598, 65599]),
         1 => 2u32..65600,
     ]
     .boxed()
